@@ -225,11 +225,11 @@ func (o UnmarshalOptions) unmarshalSingular(b []byte, wtyp protowire.Type, m pro
 }
 
 func (o UnmarshalOptions) unmarshalMap(b []byte, wtyp protowire.Type, mapv protoreflect.Map, fd protoreflect.FieldDescriptor) (n int, err error) {
-	if o.RecursionLimit--; o.RecursionLimit < 0 {
-		return 0, errRecursionDepth
-	}
 	if wtyp != protowire.BytesType {
 		return 0, errUnknown
+	}
+	if o.RecursionLimit--; o.RecursionLimit < 0 {
+		return 0, errRecursionDepth
 	}
 	b, n = protowire.ConsumeBytes(b)
 	if n < 0 {
